@@ -1,6 +1,8 @@
 package isobmff
 
 import (
+	"io"
+
 	"github.com/evanoberholster/imagemeta/meta"
 	"github.com/evanoberholster/imagemeta/verifhook"
 	"github.com/pkg/errors"
@@ -57,14 +59,25 @@ func (b *box) Discard(n int) (int, error) {
 // Read the bytes from underlying reader. Is limited by the
 // constrains of the box
 func (b *box) Read(p []byte) (n int, err error) {
-	if b.remain >= len(p) {
-		//fmt.Println(b.remain)
-		n, err = b.reader.br.Read(p)
-		b.adjust(n)
-		verifhook.T("bmff", "read", int64(n), int64(len(p)), int64(b.remain))
-		return n, err
+	// A Read never goes past the end of the box nor of any box around it:
+	// it delivers what is left (a short read) and then io.EOF.
+	limit := b.remain
+	for o := b.outer; o != nil; o = o.outer {
+		if o.remain < limit {
+			limit = o.remain
+		}
 	}
-	return 0, ErrRemainLengthInsufficient
+	if limit <= 0 {
+		return 0, io.EOF
+	}
+	if len(p) > limit {
+		p = p[:limit]
+	}
+	n, err = b.reader.br.Read(p)
+	b.adjust(n)
+	b.reader.offset += n
+	verifhook.T("bmff", "read", int64(n), int64(len(p)), int64(b.remain))
+	return n, err
 }
 
 func (b *box) adjust(n int) {
